@@ -228,6 +228,8 @@ def _single(name, cls_name, build, spec, props=("C08",), kinds_obs=(FIN,)):
         inp = Bag(obs=G.array("obs", ("n",), kinds=kinds_obs, min_size=1), a=G.array("a", ("n",), kinds=kinds_obs, min_size=1),
                   b=G.array("b", ("n",), kinds=kinds_obs, min_size=1), fc=G.array("fc", ("n",), kinds=kinds_obs, min_size=1), rec={})
         build(G, inp)
+        # the arrays as the dataset hands them out (its cached arrays): the definition is over these, and they must not be modified
+        inp.orig = {k: inp[k].copy() for k in ("obs", "a", "b", "fc")}
         return inp
 
     def call(inp):
@@ -237,7 +239,17 @@ def _single(name, cls_name, build, spec, props=("C08",), kinds_obs=(FIN,)):
         return cls().compute_single(data, 0, verif.axis.Leadtime(), 2, iv)
 
     def post(S, inp, out):
-        return spec(S, inp, out)
+        now = {k: inp[k] for k in ("obs", "a", "b", "fc")}
+        for k in now:
+            inp[k] = inp.orig[k]
+        try:
+            goals = list(spec(S, inp, out))
+        finally:
+            for k in now:
+                inp[k] = now[k]
+        goals.append(("FRAME:the-arrays-handed-out-by-the-dataset-are-not-modified",
+                      S.and_(*[S.forall(inp.orig[k], lambda i, k=k: S.same(S.at(now[k], i), S.at(inp.orig[k], i))) for k in ("obs", "a", "b", "fc")])))
+        return goals
     return register(Obligation("verif.metric.%s.compute_single#POST:%s" % (cls_name, name), props, setup, call, post, modules=MOD,
                                functions=["verif.metric.%s.compute_single" % cls_name]))
 
@@ -351,6 +363,23 @@ def _s_marginal(S, inp, out):
 
 
 _single("definition", "MarginalRatio", _b_ign, _s_marginal)
+
+
+def _b_two_sided(G, inp):
+    inp.lower = G.num("lower", kinds=(FIN,))
+    inp.upper = G.num("upper", kinds=(FIN,))
+    G.assume(inp.lower < inp.upper)
+    inp.lower_eq, inp.upper_eq = False, True
+
+
+def _s_marginal_two(S, inp, out):
+    n = S.to_num(S.count(inp.obs))
+    pm = S.sum_where(inp.obs, lambda i: S.at(inp.b, i) - S.at(inp.a, i)) / n
+    om = S.to_num(S.count_where(inp.obs, lambda i: S.and_(S.at(inp.obs, i) > inp.lower, S.at(inp.obs, i) <= inp.upper))) / n
+    return [("DEF:observed-frequency-of-the-interval/mean(P(X<=upper)-P(X<=lower)),nan-if-the-latter-is-0", S.ite(S.same(pm, 0), S.isnan(out), S.same(out, om / pm)))]
+
+
+_single("definition[two-sided]", "MarginalRatio", _b_two_sided, _s_marginal_two)
 
 
 # ------------------------------------------------------------------ Pit / Quantile / Threshold means
